@@ -287,6 +287,7 @@ func c29(r *core.Run) {
 		"the requester itself is in the skip list from the start", "the skip list is not initialised with peer.Address")
 	r.Check("C29.P1", core.Key("C29.P1", fn, "first-pass picks skipped in second pass"), fn.Pos(), okSecond,
 		"the peers picked in the first pass are added to the skip list before the second pass", "the second pass can pick a peer already chosen in the first pass")
+	deleteAtIndexLint(r, "C29.L1", "a reply entry that should be filtered out (private address, wrong order, duplicate) stays when it directly follows another removed entry", "pkg/hive2")
 }
 
 // loopExitDominates: block body lies in a loop whose header dominates target, and target is
